@@ -161,6 +161,15 @@ def cases(tier: str) -> list[dict[str, Any]]:
         cs.append({"stop": ("attempt", 4), "wait": 0, "dur": 0.0, "wait_on_attempt": won, "clause": "attempt_budget"})
         cs.append({"stop": ("attempt", 3), "wait": 1, "dur": 0.7, "wait_on_attempt": won, "clause": "attempt_budget"})
         cs.append({"stop": ("delay", 2.5), "wait": 1, "dur": 0.7, "wait_on_attempt": won, "clause": "delay_budget"})
+    # another step accepts the same event: one that never fails (runs once, sees no retry data), or one that fails under a
+    # larger budget of its own (each step counts only its own attempts and sees only its own previous exception)
+    for sibk in ("steady", "flaky"):
+        for n in (1, 3):
+            for wait, dur in ((0, 0.0), (1, 0.7)):
+                cs.append({"stop": ("attempt", n), "wait": wait, "dur": dur, "sibling": sibk, "clause": "attempt_budget"})
+        cs.append({"stop": ("delay", 2.5), "wait": 1, "dur": 0.7, "sibling": sibk, "clause": "delay_budget"})
+        cs.append({"stop": ("attempt", 3), "wait": 1, "dur": 0.7, "sibling": sibk, "busy_block": 1.5, "clause": "attempt_budget"})
+        cs.append({"stop": ("attempt", 4), "wait": 1, "dur": 0.7, "sibling": sibk, "succeed_at": 2, "clause": "attempt_budget"})
     # ... and budgets of a day and more (timedelta keeps days apart from seconds), alone and composed
     for d in (86400.0, 86402.5, 129600.0):
         for wait, dur in ((40000, 0.7), (30000, 0.0)):
@@ -213,7 +222,9 @@ def check_case(case: dict[str, Any]) -> tuple[dict[str, Any], list[tuple[str, di
         obs = run_failing(build_policy(case), exc_for, dur=case["dur"], clock=tuple(case["clock"]),
                           wall_adapter=case["wall_adapter"], with_handler=case["handler"],
                           queue_wait=case.get("queue_wait", 0.0), busy_block=case.get("busy_block", 0.0),
-                          wait_on_attempt=case.get("wait_on_attempt"))
+                          wait_on_attempt=case.get("wait_on_attempt"), sibling=case.get("sibling"),
+                          sibling_policy=(retry_policy(wait=wait_fixed(case["wait"]), stop=stop_after_attempt(ref["executions"] + 3))
+                                          if case.get("sibling") == "flaky" else None))
     except Livelock:
         # zero delay, zero duration and a policy that never gives up: the step is retried for ever without the loop
         # ever going quiet - every case of this grid has a finite budget
@@ -229,6 +240,8 @@ def check_case(case: dict[str, Any]) -> tuple[dict[str, Any], list[tuple[str, di
         w["retry_queued_behind_busy_worker"] = True
     if case.get("wait_on_attempt") is not None:
         w["an_attempt_waits_for_an_event"] = "first" if case["wait_on_attempt"] == 0 else "a_retry"
+    if case.get("sibling"):
+        w["another_step_accepts_the_same_event"] = case["sibling"]
     desc = f"case={ {k: case[k] for k in case if k not in ('clause',)} }"
     n_exec = len(obs.attempts)
     if obs.stuck or obs.capped:
@@ -244,6 +257,15 @@ def check_case(case: dict[str, Any]) -> tuple[dict[str, Any], list[tuple[str, di
         if a.last_exception is not want_exc:
             v.append(("retry_info_last_exception", w,
                       f"{desc}: attempt {i} saw last_exception={a.last_exception!r}, previous raised {want_exc!r}"))
+    if case.get("sibling") == "steady" and len(obs.sibling_attempts) != 1:
+        v.append(("attempt_budget", w, f"{desc}: the step that never fails was executed {len(obs.sibling_attempts)} times"))
+    for i, a in enumerate(obs.sibling_attempts):
+        if a.retry_number != i:
+            v.append(("retry_info_number", w, f"{desc}: the other step's attempt {i} saw retry_number={a.retry_number}"))
+        want_exc = obs.sibling_attempts[i - 1].raised if i > 0 else None
+        if a.last_exception is not want_exc:
+            v.append(("retry_info_last_exception", w,
+                      f"{desc}: the other step's attempt {i} saw last_exception={a.last_exception!r}, its previous attempt raised {want_exc!r}"))
     fe = obs.failed_event
     if ref["failed"] and n_exec == ref["executions"]:
         if fe is None:
